@@ -54,4 +54,60 @@ theorem lookupName_none_not_mem {m : List (Str × Nat)} {n : Str}
   simp at h
   exact h n o hm rfl
 
+/-- what `try_add_constant(name, obj) == True` guarantees about `name` -/
+def FreshFor (builtins : List Str) (ns ns' : Namespace) (name : Str) (obj : Nat) : Prop :=
+  name ∉ ns.occupied ∧ name ∉ ns.variables ∧ (∀ o, (name, o) ∉ ns.outer)
+  ∧ (ns.allowBuiltins = false → name ∉ builtins)
+  ∧ (lookupName ns.constants name = none ∨ lookupName ns.constants name = some obj)
+  ∧ lookupName ns'.constants name = some obj
+
+theorem tryAddConstant_fresh (builtins : List Str) (ns ns1 : Namespace) (n : Str) (obj : Nat)
+    (hadd : ns.tryAddConstant builtins n obj = (true, ns1)) : FreshFor builtins ns ns1 n obj := by
+  unfold Namespace.tryAddConstant at hadd
+  split at hadd
+  · simp at hadd
+  · rename_i hcond
+    simp only [Bool.or_eq_true, not_or, Bool.and_eq_true, List.contains_eq_mem, decide_eq_true_eq,
+      Option.isSome_iff_ne_none, ne_eq, Decidable.not_not, Bool.not_eq_true', not_and] at hcond
+    obtain ⟨⟨⟨hocc, hvar⟩, hout⟩, hbi⟩ := hcond
+    have houter := lookupName_none_not_mem hout
+    have hbi' : ns.allowBuiltins = false → n ∉ builtins := by
+      intro hab hmem
+      have := hbi hmem
+      simp [hab] at this
+    cases hl : lookupName ns.constants n with
+    | none =>
+      rw [hl] at hadd
+      simp at hadd
+      refine ⟨hocc, hvar, houter, hbi', Or.inl hl, ?_⟩
+      rw [← hadd]
+      unfold lookupName at hl ⊢
+      simp only [Option.map_eq_none_iff] at hl
+      simp [List.find?_append, hl]
+    | some o =>
+      rw [hl] at hadd
+      simp at hadd
+      obtain ⟨ho, hns⟩ := hadd
+      subst ho
+      subst hns
+      exact ⟨hocc, hvar, houter, hbi', Or.inr hl, hl⟩
+
+theorem mangleLoop_fresh (builtins : List Str) (ns : Namespace) (base : Str) (obj : Nat) :
+    ∀ fuel i name ns', mangleLoop builtins ns base obj fuel i = some (name, ns') →
+      FreshFor builtins ns ns' name obj := by
+  intro fuel
+  induction fuel with
+  | zero => intro i name ns' h; simp [mangleLoop] at h
+  | succ f ih =>
+    intro i name ns' h
+    unfold mangleLoop at h
+    simp only at h
+    split at h
+    · rename_i ns1 hadd
+      simp at h
+      obtain ⟨hn, hns⟩ := h
+      subst hn; subst hns
+      exact tryAddConstant_fresh builtins ns ns1 _ obj hadd
+    · exact ih (i + 1) name ns' h
+
 end Adaptix.Gen
